@@ -2,6 +2,7 @@ package bmc
 
 import (
 	"context"
+	"time"
 
 	"github.com/gebn/bmc/pkg/ipmi"
 )
@@ -147,6 +148,17 @@ func vC19Workload(kind int) *vC19Conn {
 				SessionOpts:  SessionOpts{Password: password, MaxPrivilegeLevel: ipmi.PrivilegeLevelUser},
 				CipherSuites: []ipmi.CipherSuite{ipmi.CipherSuite3}})
 		}
+	case 5:
+		// dialling with options and closing again: per-connection configuration must stay
+		// per-connection (no datagram is sent)
+		c.want = 0
+		c.run = func() {
+			var tr *V2SessionlessTransport
+			tr, c.err = DialV2("127.0.0.1", WithTimeout(40*time.Millisecond))
+			if c.err == nil {
+				c.err = tr.Close()
+			}
+		}
 	}
 	return c
 }
@@ -160,7 +172,7 @@ func vC19Workload(kind int) *vC19Conn {
 // shared state may be synchronised), each workload is run alone and after the other one,
 // in separate processes, and what it did (results, datagrams) is compared.
 func VerifC19_IndependentConnections() {
-	ka, kb := vChoice(5), vChoice(5)
+	ka, kb := vChoice(6), vChoice(6)
 	a, b := vC19Workload(ka), vC19Workload(kb)
 	vUseRealRand()
 	conflict := vConflicts(a.run, b.run)
